@@ -384,6 +384,11 @@ func (m Message) ErrorMessage() string {
 }
 
 func (m Message) Data() plugintypes.AuditLogMessageData {
+	if m.Data_ == nil {
+		// a message of part H without part K carries the error message only; formatters reading
+		// its data (the OCSF one does) must not meet a nil pointer behind the interface
+		return &MessageData{}
+	}
 	return m.Data_
 }
 
